@@ -51,11 +51,11 @@ CLAIMED["C12"] = ("mirsym over partition_nodes_into_groups (one loop step from a
     "bounded symbolic model checking of the kernels: a group boundary is opened iff first / after Other / kind differs / more than one line after the END of the previous require; Skip or NotInRange members block sorting; sortable groups get one stable sort_by_key; the new first member keeps its own leading trivia; sorting runs iff enabled",
     "trusts rustc's MIR printer, mirsym, z3, std's stable sort; get_expression_kind's string tests and update_positions are outside", "5/C12")
 
-CLAIMED["C20"] = ("mirsym over load_overrides (bin MIR, convert_enum! conversions inlined, one flag at a time + all flags wired) and editorconfig::load (lib MIR with the editorconfig feature, Properties::get::<K>() symbolic per key); z3 against the same-name / documented mapping; three-carrier replay",
+CLAIMED["C20"] = ("override dominance over every configuration route of src/cli/config.rs (origin analysis, vcheck/cfgorigin.py) and serde's derive-generated key/variant visitors (unknown => Err); mirsym over load_overrides (bin MIR, convert_enum! conversions inlined, one flag at a time + all flags wired) and editorconfig::load (lib MIR with the editorconfig feature, Properties::get::<K>() symbolic per key); z3 against the same-name / documented mapping; three-carrier replay",
     "bounded symbolic model checking of the mapping kernels: every Config field after overrides = the flag's same-named variant if present else the configuration's; every editorconfig key sets exactly its documented field; nothing else changes",
     "trusts rustc's MIR printer, mirsym, z3; serde/toml decoding, deny_unknown_fields, clap's string->enum parsing and ec4rs are outside the encoding (carrier replay only)", "5/C15-C20")
 
-CLAIMED["C18"] = ("mirsym over output_diff_json (one DiffOp of symbolic kind, indices and lengths; its filter/map closures executed) against similar's iter_changes contract, create_diff and its two callers (producer selection and argument order); z3; diff battery replay with the checker's own JSON/unified patchers",
+CLAIMED["C18"] = ("exactness of each producer's `no difference` test (unified: IEEE f32 comparison of the similarity ratio with 1.0 in z3's FP theory); mirsym over output_diff_json (one DiffOp of symbolic kind, indices and lengths; its filter/map closures executed) against similar's iter_changes contract, create_diff and its two callers (producer selection and argument order); z3; diff battery replay with the checker's own JSON/unified patchers",
     "bounded symbolic model checking of the JSON line-range kernel and the diff wiring: for every DiffOp kind with indices and lengths < 2^32: start = index, end = index+len-1, `original`/`expected` are the concatenation of ALL removed/added lines, no arithmetic panic; every output format hands (original, expected) in that order to its producer; format_file/format_string diff the text read against format_code's result",
     "trusts rustc's MIR printer, mirsym, z3, similar's TextDiff (grouped_ops / iter_changes contract) and unified_diff; the unified/standard texts themselves are produced by similar/console and only replayed, not encoded", "5/C18")
 
@@ -71,7 +71,7 @@ CLAIMED["C02"] = ("mirsym over EVERY library function that maps a full_moon AST 
     "bounded symbolic model checking of one inductive step per formatter: on every control path of ~90 formatter functions (loops visited <= 2 times) every child slot of the returned node derives from the input's same-named child (an optional child is dropped only when absent in the input; an empty child is replaced only under an emptiness test), enum formatters return the node kind they received, call-site guards of lossy helpers hold; number rewriting and parenthesis removal as in C04/C05 (<=2 operators here)",
     "trusts rustc's MIR printer, mirsym, z3, full_moon's builder/accessor pairs as parsed from its source; provenance is structural (a slot filled from a value computed from the right child counts as that child); symbol TEXT, trivia (C03) and Punctuated internals are outside", "5/C02")
 
-CLAIMED["C15"] = ("mirsym over find_config_file (recursion inlined) / lookup_config_file_in_directory / find_toml_file / load_configuration(_for_stdin) with the file system abstracted to a symbolic directory chain and a map-summarised cache, two successive lookups; z3 against the documented precedence; directory-tree replay",
+CLAIMED["C15"] = ("override dominance over every configuration route (vcheck/cfgorigin.py); mirsym over find_config_file (recursion inlined) / lookup_config_file_in_directory / find_toml_file / load_configuration(_for_stdin) with the file system abstracted to a symbolic directory chain and a map-summarised cache, two successive lookups; z3 against the documented precedence; directory-tree replay",
     "bounded symbolic model checking of the precedence kernels: for every existence pattern of stylua.toml/.stylua.toml on a chain of 4 directories, every cwd position or parent search: the nearest file up to the root (or XDG/HOME) is chosen, a cached second lookup (same directory or its parent) agrees; forced > found > editorconfig (unless disabled) > defaults",
     "trusts rustc's MIR printer, mirsym + Path/HashMap summaries, z3; toml decoding, ec4rs discovery and the XDG/HOME probing order are outside", "5/C15-C20")
 
